@@ -1,0 +1,35 @@
+//go:build verif
+// +build verif
+
+package leveldb
+
+import "time"
+
+// VerifWaitCompactionsStopped waits until both compaction goroutines of db (mCompaction, tCompaction: the two
+// members of db.closeW) have returned, nudging them with non-blocking triggers so that an idle one looks at
+// its state again. On a DB switched to read-only mode they return as soon as the job they were running at the
+// switch, if any, has finished; after that the DB has no goroutine left that could start a flush or a
+// compaction (like a DB opened read-only, which never starts them). Returns false on timeout (on a read-write
+// DB they never return before Close).
+func VerifWaitCompactionsStopped(db *DB, timeout time.Duration) bool {
+	done := make(chan struct{})
+	go func() {
+		db.closeW.Wait()
+		close(done)
+	}()
+	deadline := time.NewTimer(timeout)
+	defer deadline.Stop()
+	tick := time.NewTicker(100 * time.Microsecond)
+	defer tick.Stop()
+	for {
+		select {
+		case <-done:
+			return true
+		case <-deadline.C:
+			return false
+		case <-tick.C:
+			db.compTrigger(db.mcompCmdC)
+			db.compTrigger(db.tcompCmdC)
+		}
+	}
+}
